@@ -1711,15 +1711,24 @@ impl Fsm {
                                         if inv.doc_id == invoke_doc_id {
                                             toFinalize.push(inv.finalize);
                                         }
-                                        if inv.autoforward {
-                                            toForward.push(invokeId.clone());
-                                        }
                                     }
                                 }
                             }
                         }
                     }
                 };
+                // W3C: an exact copy of EVERY external event is forwarded to each running invocation that has
+                // 'autoforward' set, not only the events that come from that invocation.
+                for (invokeId, session) in &get_global!(datamodel).child_sessions {
+                    if let Some(state_id) = session.state_id {
+                        let state = self.get_state_by_id(state_id);
+                        for inv in state.invoke.iterator() {
+                            if inv.doc_id == session.invoke_doc_id && inv.autoforward {
+                                toForward.push(invokeId.clone());
+                            }
+                        }
+                    }
+                }
             }
             datamodel.set_event(&externalEvent);
             for finalizeContentId in toFinalize {
